@@ -236,7 +236,7 @@ void h_edit_addfile(void) {
 }
 
 int c_edit_import(ldb_edit_t *edit, const ldb_slice_t *src)
-__CPROVER_requires(__CPROVER_rw_ok(edit, sizeof(*edit)) && __CPROVER_r_ok(src, sizeof(*src)) && __CPROVER_r_ok(src->data, src->size))
+__CPROVER_requires(__CPROVER_rw_ok(edit, sizeof(*edit)) && __CPROVER_r_ok(src, sizeof(*src)) && __CPROVER_r_ok(src->data, src->size) && src->size <= VERIF_OBJ_MAX)
 /* the edit is freshly initialised (ldb_edit_init); releasing a used edit is ldb_edit_reset's business (unit edit.reset) */
 __CPROVER_requires(EDIT_EMPTY(edit))
 __CPROVER_requires(g_edit == edit && g_src == src->data && g_srcn == src->size && g_ncp == 0 && g_ndel == 0 && g_nnew == 0 && g_exact_set == 0)
@@ -252,6 +252,7 @@ void h_edit_import(void) {
   ldb_edit_t edit; ldb_slice_t src; int r;
   src.data = buf; src.size = in_n; src.alloc = 0;
   g_edit = &edit; g_src = buf; g_srcn = in_n; g_ncp = 0; g_ndel = 0; g_nnew = 0; g_exact_set = 0;
+  ASSUME(in_n <= VERIF_OBJ_MAX); /* no object exceeds the x86-64 user address space */
   ldb_edit_init(&edit);
   r = ldb_edit_import(&edit, &src);
   CHECK(r == 0 || r == 1, "edit_import: returns 0 or 1 on arbitrary bytes");
